@@ -907,7 +907,10 @@ class Prop(Check):
             "keyword (then a keyword before each of its assignments; its root has any shape); 3 texts each (derived; one in two mutated; falsy "
             "values 0, \"\", false favoured); non-trivial = the grammar is accepted, some attribute is assigned at "
             ">=2 sites or below a repetition or with *= / +=, and at least one text is accepted in which some object "
-            "gets >=2 values for one attribute or a falsy value")
+            "gets >=2 values for one attribute or a falsy value; plus QUICK/5 cases of the reference dimension: the same bodies "
+            "with reference-valued attributes (a=[Decl] …), declared objects as builtins, per text a resolution history "
+            "(each reference answered Postponed 0..3 steps), provider registered as *.* / Class.attr / *.attr / Class.* / "
+            "none; plus the reference-list family (6 shapes x 27 histories of three references; 30 sampled in quick)")
     MODELLED = ("hand-modelled: lang.py visit_assignment (operator base multiplicities, ?= rejection) and "
                 "_update_attr_multiplicities (Mult.visit / Mult.walk), started from the root expression visit_textx_rule makes of rule "
                 "modifiers + body (Mult.Rule.root: one-element sequence around a lone assignment / around a non-sequence "
@@ -919,13 +922,17 @@ class Prop(Check):
                 "parse tree checked for membership in Mult.Events by the verified matcher, Mult.storeRaw replay of the "
                 "raw trace (list nodes with all children and the parsing expression that made each) vs the attribute "
                 "values of the real model object, the children the model keeps vs the value tokens of the text; not exhibited: Arpeggio's parsing itself "
-                "(traces are taken from its parse trees), references (C08), user classes, object processors")
+                "(traces are taken from its parse trees), user classes, object processors; reference values: "
+                "model.py ReferenceResolver.resolve_one_step, insertion of a resolved reference into a list by its text "
+                "position (Mult.Ref.resolveRef / resolveAll, order of resolution of a Postponed history = scheduleOf), "
+                "replayed per reference list with the text's history and compared with the real list")
     ASSUMPTIONS = [
         "attribute defaults are Python-falsy (None, 0, '', False, 0.0) — checked on every unassigned scalar attribute",
         "the assignment trace of an object is what Arpeggio's parse tree shows below the object's node (children with rule name __asgn_*, in order)",
         "Events over-approximates the traces of an unordered group (an element's trace may be inserted anywhere in the trace of the others)",
         "a child of a list assignment node is a value iff it is a contained object or starts at a value token of the generated text (separator, keyword and value tokens are disjoint by construction); the model instead skips the children made by the repetition's separator match — both are compared on every list node",
-        "values are non-reference values (base types, string matches, contained objects); list order of references is C08",
+        "references resolve to declared objects handed to the metamodel as builtins; the scope provider of the harness answers Postponed a drawn number of times per reference, then the object (or None = builtins fallback); a reference is observed by the name of its target",
+        "an attribute holds references at all of its assignment sites or at none",
     ]
 
     # ---- generation ------------------------------------------------------
@@ -1542,7 +1549,7 @@ class Prop(Check):
                 if uses_sub(rules["Model"]) and "Sub" not in rules:
                     continue
                 c = {"rules": rules, "auto_init": case.get("auto_init", True), "texts": []}
-                for key in ("names", "val", "memo", "mm_skipws"):
+                for key in ("names", "val", "memo", "mm_skipws", "prov"):
                     if key in case:
                         c[key] = case[key]
                 if case.get("sub_bare") and "Sub" in rules and can_be_bare(rules["Sub"]):
@@ -1578,8 +1585,22 @@ class Prop(Check):
         # shorter texts
         if len(texts) == 1:
             toks = texts[0]["tokens"]
+            ds = texts[0].get("delays")
             for j in range(len(toks)):
-                yield dict(case, texts=[{"tokens": toks[:j] + toks[j + 1:], "origin": "shrunk"}])
+                t = {"tokens": toks[:j] + toks[j + 1:], "origin": "shrunk"}
+                if ds:
+                    t["delays"] = ds[:j] + ds[j + 1:]
+                yield dict(case, texts=[t])
+            # a simpler resolution history: nothing postponed, one reference less postponed, postponed once
+            if ds and any(ds):
+                yield dict(case, texts=[{k_: v for k_, v in texts[0].items() if k_ != "delays"}])
+                for j, dl in enumerate(ds):
+                    if dl:
+                        yield dict(case, texts=[dict(texts[0], delays=ds[:j] + [0] + ds[j + 1:])])
+                if max(ds) > 1:
+                    yield dict(case, texts=[dict(texts[0], delays=[min(dl, 1) for dl in ds])])
+            if case.get("prov") and case["prov"] != {"key": "*.*", "answer": "object"}:
+                yield dict(case, prov={"key": "*.*", "answer": "object"})
 
 
 def shrink_body(n):
@@ -1610,8 +1631,8 @@ def shrink_body(n):
         if n.get("eol"):
             yield {kk: v for kk, v in n.items() if kk != "eol"}
     if k == "asgn":
-        if n["rhs"] != "INT" and n["op"] != "?=":
-            yield dict(n, rhs="INT")
+        if n["rhs"] not in ("INT", "Ref") and n["op"] != "?=":
+            yield dict(n, rhs="INT")  # (not a reference: an attribute holds references at all of its sites or at none)
 
 
 def small_family(rng):
